@@ -159,6 +159,8 @@ def dispatch_oracle(ix: Index, scn: dict) -> list[Violation]:
                         expected_replies.append(("DisconnectResponse", None, seq))
                 except Exception:
                     cur = {"kind": "undecodable", "name": name}
+            if name == "DisconnectRequest":
+                cur["in_cb_close"] = True  # the library's own handler closes the session in the middle of this delivery
             cur.update({"turn": turn, "type": mtype, "snapshot": [s for s, ts in active.items() if name in ts], "cbs": [], "added": set(), "removed": set(), "writes": 0, "states": [], "fatals": []})
         elif kind == "cb_raw":
             if cur is not None:
@@ -346,6 +348,30 @@ def gen_dispatch(rng: random.Random) -> dict:
     }
 
 
+def gen_early_subscriber(rng: random.Random) -> dict:
+    """A subscriber registered on the connection object before the handshake (between the two connect phases), also for
+    the peer request types the library answers itself: it is registered 'at that moment' like any other."""
+    client: dict = {"addresses": ["10.0.0.5"], "keepalive": 60.0}
+    device: dict = {}
+    gen_transport(rng, client, device, noise_p=0.3)
+    req_types = ["PingRequest", "GetTimeRequest", "DisconnectRequest"]
+    types = rng.sample(req_types, rng.randint(1, 3)) + rng.sample(SUB_TYPES, rng.randint(0, 2))
+    steps: list[dict] = [{"do": "conn.new"}, {"do": "conn.start"}, {"do": "conn.add_cb", "sid": "s0", "types": types, "behaviors": []}, {"do": "conn.finish", "login": rng.random() < 0.5}]
+    if rng.random() < 0.5:
+        steps.append({"do": "conn.add_cb", "sid": "s1", "types": rng.sample(req_types + SUB_TYPES[:3], 2), "behaviors": []})
+    steps += [{"do": "sleep", "d": 10.0}, {"do": "conn.disconnect"}]
+    events = []
+    for _ in range(rng.randint(2, 6)):
+        msgs = []
+        for _ in range(rng.randint(1, 3)):
+            name = pick(rng, ["PingRequest", "GetTimeRequest", "PingRequest"] + SUB_TYPES[:4])
+            msgs.append([name, rand_fields(rng, name) if name in SUB_TYPES else {}])
+        events.append({"at": {"t": 0.5 + rng.random() * 5.0}, "do": "dev", "act": {"msgs": msgs, "latency": pick(rng, [0.0, 0.001])}})
+    if rng.random() < 0.4:
+        events.append({"at": {"t": 7.0}, "do": "dev", "act": {"msgs": [["DisconnectRequest", {}]], "latency": 0.0}})
+    return {"family": "dispatch", "knobs": gen_knobs(rng), "client": client, "device": device, "net": {"cuts": gen_cuts(rng), "c2d_latency": 0.001, "d2c_latency": [pick(rng, [0.0, 0.001])]}, "actors": [{"id": "a0", "at": {"t": 0.0}, "steps": steps}], "events": events, "end": 100.0}
+
+
 def gen_unknown_keepalive(rng: random.Random) -> dict:
     K = pick(rng, [1.0, 2.0, 5.0])
     client: dict = {"addresses": ["10.0.0.5"], "keepalive": K}
@@ -398,6 +424,8 @@ class C12(CheckBase):
             return
         if idx % 6 == 5:
             yield gen_unknown_keepalive(rng)
+        elif idx % 12 == 3:
+            yield gen_early_subscriber(rng)
         elif idx % 40 == 7:
             lo = rng.randrange(0, 65536 - 512)
             yield gen_id_block(lo, lo + 512, rng.random() < 0.3, rng)
